@@ -376,6 +376,11 @@ func (s *subStub) ServeDNS(ctx context.Context, ch *middleware.Chain) {
 	m.SetReply(req)
 	m.Answer = []dns.RR{&dns.TXT{Hdr: dns.RR_Header{Name: req.Question[0].Name, Rrtype: dns.TypeTXT, Class: dns.ClassINET, Ttl: 5}, Txt: []string{req.Question[0].Name}}}
 	_ = ch.Writer.WriteMsg(m)
+	if strings.HasPrefix(req.Question[0].Name, "e") {
+		// the sub-pipeline captured a response, but it is a marked request-local failure:
+		// Query hands its caller the error, not the message
+		middleware.MarkRequestLocalFailureResponse(ctx, m, middleware.ErrResolutionAttemptLimit)
+	}
 	ch.Cancel()
 }
 
